@@ -18,6 +18,7 @@ func init() {
 		Assumptions: []string{"resource.Collection/Value semantics (C01/C02)"},
 		Run:         runC19,
 		Controls: []Control{
+			{Name: "update-mode-rewrites-the-mask-after-the-check", File: "pkg/trait/electricpb/model.go", Old: "\tmsg, err := m.modes.Update(mode.Id, mode, opts...)", New: "\tmsg, err := m.modes.Update(mode.Id, mode, append(opts[:len(opts):len(opts)], resource.WithUpdateMask(nil))...)", Expect: "R19.2"},
 			{Name: "default-id-interceptor-on-modes", File: "pkg/trait/electricpb/model_opts.go", Old: "var DefaultModelOptions = []resource.Option{", New: "var _ = resource.WithIDInterceptor(func(s string) string { return s })\n\nvar DefaultModelOptions = []resource.Option{", Expect: "R19.6"},
 			{Name: "updatemode-without-lock", File: "pkg/trait/electricpb/model.go", Old: "func (m *Model) UpdateMode(mode *traits.ElectricMode, opts ...resource.WriteOption) (*traits.ElectricMode, error) {\n\tm.mu.Lock()\n\tdefer m.mu.Unlock()\n", New: "func (m *Model) UpdateMode(mode *traits.ElectricMode, opts ...resource.WriteOption) (*traits.ElectricMode, error) {\n", Expect: "R19.1"},
 			{Name: "findmode-rlock-dropped", File: "pkg/trait/electricpb/model.go", Old: "\tm.mu.RLock()\n\tdefer m.mu.RUnlock()\n\n\treturn m.findMode(id)", New: "\treturn m.findMode(id)", Expect: "R19.1"},
@@ -40,6 +41,7 @@ const elecPkg = "pkg/trait/electricpb"
 
 func runC19(c *an.Ctx) {
 	r196(c)
+	r192mask(c)
 	r191(c)
 	r192(c)
 	r193(c)
@@ -693,5 +695,64 @@ func r196(c *an.Ctx) {
 	}
 	if n == 0 {
 		c.Ok(rule, "pkg/trait/electricpb|mode ids are stored as given", 0, "no id interceptor is installed by the electric model")
+	}
+}
+
+// r192mask: the update mask that decides whether the normal-mode check may be skipped is the mask the collection goes
+// on to apply: the function that updates a mode does not add mask options of its own to the caller's options (an empty
+// mask judged as "does not write normal" and then turned into "full update" stores a second normal mode).
+func r192mask(c *an.Ctx) {
+	const rule = "R19.2"
+	for _, fn := range c.Prog.FuncsIn(elecPkg) {
+		if c.Prog.IsGenerated(fn.Pos()) || fn.Parent() != nil {
+			continue
+		}
+		an.Instrs(fn, func(in ssa.Instruction) {
+			f, m, ok := modelResourceCall(in)
+			if !ok || f != "modes" || m != "Update" {
+				return
+			}
+			call := in.(*ssa.Call)
+			a := call.Call.Args
+			bad := ""
+			seen := map[ssa.Value]bool{}
+			var walk func(v ssa.Value, depth int)
+			walk = func(v ssa.Value, depth int) {
+				if depth > 6 || seen[v] {
+					return
+				}
+				seen[v] = true
+				for _, s0 := range an.Sources(v) {
+					switch x := s0.(type) {
+					case *ssa.Call:
+						n := an.CalleeName(x)
+						if strings.HasPrefix(n, an.ModulePath+"/pkg/resource.With") && (strings.Contains(n, "UpdateMask") || strings.Contains(n, "UpdatePaths")) {
+							bad = an.ModRel(n)
+						}
+						if n == "builtin append" {
+							for _, arg := range x.Call.Args {
+								walk(arg, depth+1)
+							}
+						}
+					case *ssa.Slice:
+						walk(x.X, depth+1)
+						owner := x.Parent()
+						an.Instrs(owner, func(y ssa.Instruction) {
+							if st, isSt := y.(*ssa.Store); isSt {
+								if ia, isIA := st.Addr.(*ssa.IndexAddr); isIA && ia.X == x.X {
+									walk(st.Val, depth+1)
+								}
+							}
+						})
+					case *ssa.MakeInterface:
+						walk(x.X, depth+1)
+					}
+				}
+			}
+			walk(a[len(a)-1], 0)
+			c.SawFunc(an.FuncName(fn))
+			c.Check(bad == "", rule, an.FuncName(fn)+"|the mask that was judged is the mask that is applied", call.Pos(), "the caller's options reach modes.Update unchanged in their masks",
+				"the options handed to modes.Update contain a mask option added here ("+bad+"): the normal-mode check was made against the caller's mask (an empty mask writes nothing, so the check is skipped) while the collection applies another one (a full update): a second normal mode is stored")
+		})
 	}
 }
